@@ -308,9 +308,15 @@ def shard(ctx):
             os.makedirs(os.path.join(sdir, "tm", "tests"))
             for rel, content in multi.items():
                 open(os.path.join(sdir, "tm", rel), "w").write(content)
+            # --test-data may name a directory; test files in its sub-directories belong to the run as well
+            os.makedirs(os.path.join(sdir, "tn", "specs", "regression", "deep"))
+            shutil.copy(rpath, os.path.join(sdir, "tn", "rr.guard"))
+            open(os.path.join(sdir, "tn", "specs", "rr_ok_tests.json"), "w").write(good_ttext)
+            open(os.path.join(sdir, "tn", "specs", "regression", "deep" if t % 2 else "", os.path.basename(tpath)), "w").write(ttext)
             for fmt in ("plain", "json", "yaml", "junit"):
-                for layout in ("files", "dir", "dir-multi"):
-                    argv = ["test"] + (["-r", rpath, "-t", tpath] if layout == "files" else ["-d", os.path.join(sdir, "t" if layout == "dir" else "tm")])
+                for layout in ("files", "dir", "dir-multi", "files-nested"):
+                    argv = ["test"] + (["-r", rpath, "-t", tpath] if layout == "files" else (["-r", os.path.join(sdir, "tn", "rr.guard"), "-t", os.path.join(sdir, "tn", "specs")] if layout == "files-nested"
+                                                                                    else ["-d", os.path.join(sdir, "t" if layout == "dir" else "tm")]))
                     if fmt != "plain":
                         argv += ["-o", fmt]
                     code, out, err = core.run_cli(argv)
@@ -371,7 +377,7 @@ def main(tier, seed):
     floor = {"cases": (res.cases, 1500), "exit_class_x_mode": (have, len(need) - 4 if tier == "quick" else len(need))}
     return core.finish("C06", tier, seed, res, t0,
                        rule="scenarios = tuples of 1..3 rules-file kinds x 1..3 data-file kinds (every position of every kind; thorough: all tuples of "
-                            "length <=2 plus 6000 longer ones) x 12 invocation modes, each run as a real process; `test` scenarios x 4 formats x 3 layouts (files, directory, directory with 2-3 rules files and the scenario file at each position); "
+                            "length <=2 plus 6000 longer ones) x 12 invocation modes, each run as a real process; `test` scenarios x 4 formats x 4 layouts (files, directory, directory with 2-3 rules files and the scenario file at each position, --test-data directory with the scenario file in a sub-directory); "
                             "distinct = (mode, expected class, exit code, #rules files, #data files)",
                        floor=floor, exhaustive=False,
                        assumptions=["per-pair verdicts come from singleton run_checks evaluations", "crash exits (101/signal) are routed to C08 and counted inconclusive here",
